@@ -252,6 +252,7 @@ func runC10(c *Ctx) {
 			}
 		}
 		c.floor("C10.3", "argument-map inserts", nIns, 1)
+		ruleArgumentTypeAsRequired(c, "C10.3")
 	}
 
 	ruleArgumentOnlyWhenUnsupplied(c, "C10.3")
@@ -573,4 +574,34 @@ func injectorHelpers(fn *ssa.Function, depth int) []*ssa.Function {
 		frontier = next
 	}
 	return out
+}
+
+// ruleArgumentTypeAsRequired: the parameter is declared with the type the provider asks for - as written (an alias stays the
+// alias: its target may be unexported or internal to another module), not a normalised form of it.
+func ruleArgumentTypeAsRequired(c *Ctx, rule string) {
+	L := c.L
+	ng := genFn(c, rule, "NewGraph")
+	if ng == nil {
+		return
+	}
+	nArg := 0
+	for _, f2 := range family(L, ng) {
+		for _, cs := range callsIn(f2) {
+			if !calleeIs(c, cs, genPkg, "autoAddMissingDependencies") {
+				continue
+			}
+			for _, a := range cs.common.Args {
+				if a.Type().String() != "go/types.Type" {
+					continue
+				}
+				nArg++
+				s := newSym(L, map[string]bool{})
+				s.maxD = 0
+				t := strings.Join(s.eval(a), "|")
+				c.check(strings.HasPrefix(t, "index(field:internal/kessoku.ProviderSpec.Requires(") || strings.HasPrefix(t, "field:internal/kessoku.Return.Type(field:internal/kessoku.BuildDirective.Return("), rule, fnName(f2)+":argument-type-as-required", L.pos(cs.instr.Pos()),
+					"an injector parameter gets exactly the type the needed provider requires (the element of its Requires list, untransformed)", t)
+			}
+		}
+	}
+	c.floor(rule, "types handed to the argument constructor", nArg, 1)
 }
